@@ -30,8 +30,10 @@ var checks = map[string]entry{
 	"C10": {"exploration", mon.CheckC10},
 	"C11": {"fault_enumeration", mon.CheckC11},
 	"C12": {"fault_enumeration", mon.CheckC12},
+	"C13": {"exploration", mon.CheckC13},
 	"C15": {"exploration", mon.CheckC15},
 	"C16": {"exploration", mon.CheckC16},
+	"C17": {"fault_enumeration", mon.CheckC17},
 	"C18": {"exploration", mon.CheckC18},
 	"C19": {"exploration", mon.CheckC19},
 	"C20": {"exploration", mon.CheckC20},
